@@ -1,3 +1,4 @@
 import TinyFlux.Audit.Tool
 import TinyFlux.Props.C16
+import TinyFlux.Props.C16EndToEnd
 #audit TinyFlux.Props.C16
